@@ -511,7 +511,7 @@ func c09(ctx *core.Ctx) {
 		rr := ctx.Rand(ci, "req")
 		urls := urlsFor(rr, p.t, 12)
 		passes := 1
-		if len(p.cfg.Methods) == 0 && ci%2 == 0 {
+		if len(p.cfg.Methods) == 0 && (ci/2)%2 == 0 {
 			passes = 2 // allowed methods are computed from the routes: they must follow a change of the routes
 		}
 		for pass := 0; pass < passes; pass++ {
